@@ -9,7 +9,7 @@ from props.common import load_impl, exc_name
 from props import kern
 
 RULE = ("the extension is re-cythonized and compiled from /repo's shapley_cy.pyx for this run; random kernel argument arrays on a size ladder "
-        "(1 .. 2000 units quick, .. 65536 thorough; 1-64 validation points; 1-6 classes; tie groups; utilities up to 1e6): (i) rebuilt-cy vs Python "
+        "(1 .. 2000 units quick, .. 65536 thorough; 1-130 validation points; 1-6 classes; tie groups; utilities up to 1e6): (i) rebuilt-cy vs Python "
         "reference within 8*n*2^-53*scale, (ii) each vs the exact rational model Ds.Kernel.importances (n <= 400) within 1e-9*(1+scale), (iii) rebuilt-cy "
         "vs the Float instance of the same model function bit for bit (n <= 2000, recorded). Non-trivial = >= 2 units with >= 2 labels and non-constant "
         "utilities; distinct = distinct (size, seed-derived content) cases.")
@@ -25,7 +25,7 @@ def run(ctx):
     worst_rel = 0.0
     for n in ladder:
         for rep in range(reps):
-            m = rng.choice([1, 2, 5, 17, 64]) if n <= 2000 else rng.choice([1, 4])
+            m = (rng.choice([1, 2, 5, 17, 64, 65, 100, 130]) if n <= 400 else rng.choice([1, 2, 5, 17, 64, 70])) if n <= 2000 else rng.choice([1, 4])
             c = rng.randint(1, 6)
             ties = rng.random() < 0.4
             big = rng.random() < 0.4
